@@ -117,6 +117,11 @@ def run_check(modname, tier, seed, replay=None, nproc=None, max_cases=None):
     chunk = 1 if fresh else max(1, min(64, len(cases) // (nproc * 8) or 1))
     chunk = getattr(mod, "CHUNK", chunk)
     chunks = [cases[i:i + chunk] for i in range(0, len(cases), chunk)]
+    cost = getattr(mod, "cost", None)
+    if cost is not None:
+        # longest-running cases first (execution order only: results are
+        # re-sorted into generation order below)
+        chunks.sort(key=lambda ch: -sum(cost(c) for c in ch))
     results = []
     ctx = mp.get_context("fork")
     if nproc == 1 or len(cases) <= 1:
